@@ -185,6 +185,18 @@ CHECKS['C15'] = dict(
     note='The second thread has a single atomic step, so its placement before each line event of the first thread is the '
          'complete interleaving space of this harness; asynchronous kill is judged as prefix + at most one further result.')
 
+CHECKS['C11'] = dict(
+    level='exploration', engine='SEQ', design='6 C11',
+    technique='exhaustive enumeration of (inclusion list, exclusion list, limit, entry point) over a catalogue with known '
+              'expansion counts around each limit, against a reference budget machine; bracex.iexpand interposed to count '
+              'items pulled and to record the budget handed to bracex (fault horizon instead of timing)',
+    text='Limits 1,2,3,5,32,33 (thorough +1000,1001), 0 and the default x 15 entry points + WcMatch x lists of 1..2 (3) '
+         'inclusions and 0..1 (2) exclusions given by exclude= or inline NEGATE: unique count > L raises '
+         'PatternLimitException, total <= L does not, limit=0 never raises, omitted limit == 1000, at most L+1+patterns '
+         'expansions pulled, bracex never receives an unlimited budget; the 10^8 range fails fast in every position.',
+    note='Counts come from the catalogue\'s own expander (bracex.expand without limit on small shapes); bracex is trusted to '
+         'honour the limit it is given.')
+
 PENDING = {}
 
 
